@@ -37,7 +37,7 @@ REAL = common.REAL_ALL
 STUBS = common.STUBS_ALL
 PROBES = ['one_sample_trace', 'declared_unused_var', 'supplied_undeclared_var', 'permuted_inputs', 'empty_batch', 'unsupported_rejected',
           'rejected_at_parse', 'rejected_at_pastify', 'rejected_at_first_evaluation', 'reset_called', 'combined_class',
-          'object_reused_for_another_log', 'configured_sampling_period', 'message_typed_variable']
+          'object_reused_for_another_log', 'configured_sampling_period', 'message_typed_variable', 'all_signals_empty']
 
 UNSUPPORTED = {
     # kind, pastify -> constructs that must be rejected
@@ -118,6 +118,10 @@ def gen(rng, tier):
         sc['signals'] = dict((v, world.gen_dense_signal(rng, 1 if one else rng.randint(1, 6), start_q=0, max_gap_q=4)[0]) for v in declared)
         if one:
             shapes.append('one_sample_trace')
+        if kind == 'ct_off' and rng.random() < 0.08:
+            # a log in which every sensor is present but has not delivered a single sample
+            sc['signals'] = dict((v, []) for v in declared)
+            shapes.append('all_signals_empty')
         nb = rng.randint(1, 4)
         # batches may be empty
         sizes = {}
